@@ -442,6 +442,8 @@ async fn run_async(cfg: &Config, headers: &[ExtendedHeader], prefix: &[u32], kee
     }
     pruner.stop();
     drop(pending);
+    // close the Daser side: a question still queued (or asked from now on) fails instead of blocking
+    drop(daser);
     // let it wind down (it may still be inside a batch; removal stops at the next height)
     let joined = tokio::time::timeout(Duration::from_secs(10 * HOUR), pruner.join()).await.is_ok();
     let mut fatal = None;
@@ -460,9 +462,6 @@ async fn run_async(cfg: &Config, headers: &[ExtendedHeader], prefix: &[u32], kee
     let sampled: BTreeSet<u64> = (1..=n).filter(|h| cfg.status[*h as usize - 1] == St::Sampled).collect();
     let mut bs_removed: BTreeSet<Vec<u8>> = BTreeSet::new();
     let mut last_answer: BTreeMap<u64, bool> = BTreeMap::new();
-    if !joined {
-        viol.push(viol_m("pruner-did-not-stop", "the pruner task did not finish after stop()".to_string()));
-    }
     for ev in &log_v {
         match ev {
             Ev::IterStart => stats.iterations += 1,
@@ -567,6 +566,10 @@ async fn run_async(cfg: &Config, headers: &[ExtendedHeader], prefix: &[u32], kee
         if let Some(f) = &fatal {
             ch.labels.push(format!("fatal event: {f}"));
         }
+    }
+    if !joined {
+        // not part of the property: the harness could not wind the system down
+        ch.diverged = Some("the pruner task did not finish after stop() (JoinHandle::join pending for 10 virtual hours)".to_string());
     }
     if fatal_unexpected {
         ch.diverged = Some(format!("pruner died with an error the harness did not cause: {}", fatal.clone().unwrap_or_default()));
